@@ -274,7 +274,10 @@ class Cli:
         self.stats[k] = self.stats.get(k, 0) + 1
 
     def v(self, clause, detail, op_index, sig=None):
-        d = {"property": "C19", "clause": clause, "op_index": op_index, "detail": detail[:500]}
+        from gen.formulas import features
+
+        d = {"property": "C19", "clause": clause, "op_index": op_index, "detail": detail[:500],
+             "features": sorted({ft for f in self.plan["formulas"] for ft in features(f)})}
         d["signature"] = sig or {"type": "Oracle", "site": clause, "message": "", "raw": ""}
         self.viol.append(d)
 
